@@ -168,7 +168,8 @@ def cbmc_cmd(ob, tcfg, cfile, entry, extra=(), params=()):
     cmd += ["--unwind", str(uw)]
     us = tcfg.get("unwindset", {})
     if us:
-        cmd += ["--unwindset", ",".join("%s:%d" % (k, v) for k, v in us.items())]
+        env = {"p%d" % i: v for i, v in enumerate(params)}
+        cmd += ["--unwindset", ",".join("%s:%d" % (k, (int(eval(v, {}, env)) if isinstance(v, str) else v)) for k, v in us.items())]
     cmd += tcfg.get("cbmc_flags", []) + ob.get("cbmc_flags", [])
     cmd += list(extra)
     return cmd
